@@ -31,6 +31,8 @@ THEOREMS = [
     "C12_replace_refused_noop",
     "C12_restore_insert",
     "C12_load_in_place",
+    "C12_call",
+    "C12_seat_prewired_witness",
     "C12_pull_restore",
     "C12_flow_derivation",
     "C12_firing_order",
@@ -293,6 +295,8 @@ class _G:
             self.ops.append(["roundtrip", rng.choice(COMPOSITES)])
         elif r < 0.993:
             self.construct()
+        elif r < 0.997:
+            self.call()
         else:
             self.ops.append(rng.choice([["startv", 5], ["inject", rng.randrange(2, N_OBJ), rng.randrange(3),
                                                          rng.randrange(4), rng.randrange(N_OBJ)]]))
@@ -302,6 +306,49 @@ class _G:
         obj = rng.randrange(N_OBJ) if obj is None else obj
         self.ops.append(["odisc", obj, rng.choice(["inputs", "outputs", "sin", "sout", "signals", "node", "node",
                                                    "run", "crun"])])
+
+    def call(self, k=None, restate=0.6, refuse=0.55):
+        """a call with several keywords / positional values: earlier ones restate connections made before in this
+        history, form new ones or set values; the last one may be refused (hint, wrong kind, unknown keyword)"""
+        rng = self.rng
+        lay = self.lay
+        k = rng.choice([o for o in range(2, N_OBJ) if lay.panel(o, "inputs")]) if k is None else k
+        ins = lay.panel(k, "inputs")
+        made = {}
+        for op in self.ops:
+            if op[0] == "connect" and len(op) == 4:
+                for a, b in ((op[2], op[3]), (op[3], op[2])):
+                    if a in ins and lay.rows[b][1] == "outputs":
+                        made.setdefault(a, b)
+        labs = rng.sample(ins, min(len(ins), rng.randint(2, 4)))
+        items = []
+        for a in labs[:-1]:
+            lab = lay.rows[a][2]
+            r = rng.random()
+            if a in made and r < restate:
+                items.append([lab, made[a]])
+            elif r < 0.8:
+                items.append([lab, rng.choice(lay.by_kind["outputs"])])
+            else:
+                items.append([lab, "ok"])
+        last = lay.rows[labs[-1]][2]
+        r = rng.random()
+        if r < refuse * 0.4:
+            items.append([last, "bad"])
+        elif r < refuse * 0.7:
+            items.append([last, rng.choice([c for c in lay.by_kind["outputs"] if lay.rows[c][3] is str] or lay.by_kind["outputs"])
+                          if last in ("i", "b", "x") else rng.choice(lay.by_kind["sout"] + lay.by_kind["inputs"])])
+        elif r < refuse * 0.85:
+            items.append([last, rng.choice(lay.by_kind["sout"] + lay.by_kind["inputs"])])
+        elif r < refuse:
+            items.append(["zz", rng.choice(lay.by_kind["outputs"])])
+        else:
+            items.append([last, rng.choice(lay.by_kind["outputs"]) if rng.random() < 0.7 else "ok"])
+        if rng.random() < 0.2 and items:  # the first one positionally
+            first_lab = lay.rows[ins[0]][2]
+            items = [["#", src] if lab == first_lab else [lab, src] for lab, src in items]
+            items.sort(key=lambda it: it[0] != "#")
+        self.ops.append(["call", rng.choice(["set", "set", "set", "run", "call"]), k, items])
 
     def construct(self):
         """a node made with connections given as keywords; a later keyword may be refused"""
@@ -427,8 +474,57 @@ def _gen_copy_chan(rng, tier):
     return g.case("copy")
 
 
+def _gen_copy_prewired(rng, tier):
+    """replacement INSTANCES that carry connections on channels the replaced node does not have (the extra signal
+    channels of TS), to a neighbour the replaced node shares and / or to others; then the replacement, then removal or
+    disconnection of the neighbours"""
+    cands = ["TS", rng.choice(CAND_CLASSES)]
+    rng.shuffle(cands)
+    g = _G(rng, cands=cands, nonstrict=[])
+    lay = g.lay
+    recv = CANDS[cands.index("TS")]
+    src = rng.choice([2, 3, 6, 7, 8, 9])
+    # ordinary connections of the node to be replaced
+    for panel in PANELS:
+        for c in rng.sample(lay.panel(src, panel), rng.randint(0, 2)):
+            g.connect_pair(c, rng.choice([b for b in g.conj_of(c) if lay.rows[b][0] not in (src, recv)]))
+    nbrs = []
+    for _ in range(rng.randint(1, 3)):
+        if rng.random() < 0.5:
+            extra, mine = lay.key[(recv, "sout", "xout")], rng.choice(lay.panel(src, "sout"))
+        else:
+            extra, mine = lay.key[(recv, "sin", "xin")], rng.choice(lay.panel(src, "sin"))
+        pool = [b for b in g.conj_of(extra) if lay.rows[b][0] not in (src, recv)]
+        shared = rng.choice(pool)
+        nbrs.append(lay.rows[shared][0])
+        r = rng.random()
+        if r < 0.7:     # the neighbour is shared with the replaced node
+            g.connect_pair(mine, shared)
+            g.connect_pair(extra, shared)
+        elif r < 0.85:  # only the replacement knows it
+            g.connect_pair(extra, shared)
+        else:           # pre-wired on a channel the two nodes share: refused by any reading of the precondition
+            g.connect_pair(lay.key[(recv, lay.rows[mine][1], lay.rows[mine][2])], shared)
+    for _ in range(rng.randint(0, 1)):
+        g.state_op()
+    g.ops.append(["replace", src, recv])
+    g.ops.append(["query", recv])
+    for n in nbrs:
+        r = rng.random()
+        if r < 0.4 and n >= 2:
+            g.ops.append(["remove", n])
+        elif r < 0.7:
+            g.ops.append(["odisc", n, rng.choice(["node", "signals"])])
+    for _ in range(rng.randint(0, 3)):
+        g.any_op()
+    return g.case("copy")
+
+
 def _gen_copy(rng, tier):
-    if rng.random() < 0.3:
+    r0 = rng.random()
+    if r0 < 0.15:
+        return _gen_copy_prewired(rng, tier)
+    if r0 < 0.4:
         return _gen_copy_chan(rng, tier)
     """a source node with connections in chosen panel positions, a receiver of a chosen interface with
     chosen pre-existing connections, then copy_io / copy_connections / replace_child"""
@@ -595,6 +691,29 @@ def _gen_lifecycle(rng, tier):
     return g.case("lifecycle")
 
 
+def _gen_calls(rng, tier):
+    """the idiom of calling a node again with its upstream nodes: connect, then call / run / set_input_values with
+    several keywords that restate, add and (last) get refused; nodes idle, failed, running"""
+    g = _G(rng, nonstrict=[] if rng.random() < 0.7 else None)
+    lay = g.lay
+    targets = rng.sample([o for o in range(2, N_OBJ) if lay.panel(o, "inputs")], 2)
+    for k in targets:
+        for a in rng.sample(lay.panel(k, "inputs"), min(len(lay.panel(k, "inputs")), rng.randint(1, 3))):
+            g.connect_pair(a, rng.choice(lay.by_kind["outputs"]), rng.choice(["method", "assign", "kw"]))
+    g.wire_some(rng.randint(0, 4))
+    if rng.random() < 0.3:
+        g.state_op()
+    for _ in range(rng.randint(2, 6)):
+        r = rng.random()
+        if r < 0.7:
+            g.call(k=rng.choice(targets) if rng.random() < 0.8 else None)
+        elif r < 0.8:
+            g.ops.append(["query", rng.choice(targets)])
+        else:
+            g.any_op()
+    return g.case("calls")
+
+
 def _gen_inject(rng, tier):
     """fault injection: chosen channel objects refuse `connect`/`disconnect` at entry (an instance-level
     wrapper installed by the harness). Checks the ORDER of the two half-removals of the real
@@ -656,7 +775,7 @@ def gen_cases(rng, tier):
     quick = tier == "quick"
     for fam, n in ((_gen_general, 120 if quick else 2000), (_gen_owner, 50 if quick else 900),
                    (_gen_copy, 100 if quick else 1800), (_gen_running, 50 if quick else 900),
-                   (_gen_inject, 40 if quick else 600), (_gen_lifecycle, 40 if quick else 500)):
+                   (_gen_inject, 40 if quick else 600), (_gen_lifecycle, 40 if quick else 500), (_gen_calls, 50 if quick else 700)):
         for _ in range(n):
             yield fam(rng, tier)
     if not quick:
@@ -742,6 +861,22 @@ def corpus():
         ["connect", "method", ("b", "inputs", "u"), ("ma", "outputs", "oi")],
         ["startv", 5],
         ["finish", 5],
+    ])
+    # a replacement pre-wired on an extra channel to a neighbour it shares with the replaced node (refused today)
+    yield mk(["TS", "TA"], [
+        ["connect", "method", ("a", "sout", "ran"), ("d", "sin", "run")],
+        ["connect", "method", ("p", "sout", "xout"), ("d", "sin", "run")],
+        ["replace", 2, 10],
+        ["remove", 8],
+        ["query", 10],
+    ])
+    # calling a node again with its upstream: the first keyword restates a connection, the second is refused
+    yield mk(["TA", "TA"], [
+        ["connect", "method", ("a", "inputs", "i"), ("d", "outputs", "oi")],
+        ["call", "set", 2, [["i", ("d", "outputs", "oi")], ["b", ("d", "outputs", "os")]]],
+        ["call", "run", 2, [["i", ("d", "outputs", "oi")], ["s", "bad"]]],
+        ["call", "set", 2, [["i", ("e", "outputs", "oi")], ["zz", ("d", "outputs", "os")]]],
+        ["call", "set", 2, [["#", ("d", "outputs", "oi")], ["s", ("d", "outputs", "os")], ["b", "bad"]]],
     ])
     # constructors whose later keyword is refused: with a parent (cleaned up) and without (KF-C12-5)
     yield mk(["TA", "TA"], [
@@ -1234,6 +1369,7 @@ def _run_impl(case, T):
         T.log = []
         T.depth = 0
         T.on = op[0] in TRACED
+        traced_op = T.on or (op[0] == "call" and len(op) > 1 and op[1] in ("run", "call"))
         n_before = len(obj)
         try:
             kind = op[0]
@@ -1411,6 +1547,58 @@ def _run_impl(case, T):
             elif kind == "pull":
                 modelled = False
                 guarded(lambda: (sched.drain(), objs[op[1]].pull()))
+            elif kind == "call":
+                # connections formed through a call: set_input_values / run(**kw) / node(**kw); items are
+                # [label or "#" (positional), source]: source = channel id, "ok" (a value the hint admits), "bad"
+                variant, k, items = op[1], op[2], op[3]
+                if variant not in ("set", "run", "call") or not (isinstance(k, int) and 2 <= k < N_OBJ) or k in reloaded:
+                    raise _Malformed() if k not in reloaded else _Stale()
+                X = objs[k]
+                labels = [lay.rows[c][2] for c in lay.panel(k, "inputs")]
+                hints = {lay.rows[c][2]: lay.rows[c][3] for c in lay.panel(k, "inputs")}
+                good = {lab: {int: 3, str: "txt", bool: False}.get(h, 1.5) for lab, h in hints.items()}
+                bad = {lab: {int: "no int", str: 5, bool: "no bool"}[h] for lab, h in hints.items()
+                       if h is not None and lay.key[(k, "inputs", lab)] not in case["nonstrict"]}  # (non-strict: no value test)
+                args, kwargs, resolved, known = [], {}, [], True
+                for lab, src in items:
+                    if isinstance(src, int):
+                        if not 0 <= src < lay.n:
+                            raise _Malformed()
+                        val, tok = obj[src], src
+                    elif src == "bad":
+                        key = lab if lab != "#" else (labels[len(args)] if len(args) < len(labels) else "u")
+                        val, tok = (bad[key], "x") if key in bad else (good.get(key, 0), "v")
+                    else:
+                        key = lab if lab != "#" else (labels[len(args)] if len(args) < len(labels) else "u")
+                        val, tok = good.get(key, 0), "v"
+                    if lab == "#":
+                        args.append((val, tok))
+                    else:
+                        if lab in kwargs:
+                            raise _Malformed()
+                        kwargs[lab] = (val, tok)
+                # the order the library applies them in: keywords first, then the positional ones by input order
+                if len(args) > len(labels) or any(lab not in labels for lab in kwargs) or any(
+                        labels[j] in kwargs for j in range(min(len(args), len(labels)))):
+                    known = False
+                else:
+                    for lab, (val, tok) in kwargs.items():
+                        resolved.append((lay.key[(k, "inputs", lab)], tok))
+                    for j, (val, tok) in enumerate(args):
+                        resolved.append((lay.key[(k, "inputs", labels[j])], tok))
+                st["call"] = {"known": known, "items": [[a, t] for a, t in resolved],
+                              "locked": bool(vars(X).get("running"))}
+                a_vals = [v for v, _t in args]
+                kw_vals = {lab: v for lab, (v, _t) in kwargs.items()}
+                if variant == "set":
+                    X.set_input_values(*a_vals, **kw_vals)
+                else:
+                    modelled = False
+                    T.on = True
+                    if variant == "run":
+                        guarded(lambda: X.run(*a_vals, **kw_vals))
+                    else:
+                        guarded(lambda: (sched.drain(), X(*a_vals, **kw_vals)))
             elif kind == "construct":
                 modelled = False
                 from . import nodes_c12 as N
@@ -1519,7 +1707,7 @@ def _run_impl(case, T):
         if merged:
             st["merged"] = merged  # came back from the by-value executor during this operation
             byvalue.difference_update(merged)
-        if op[0] in TRACED and res not in ("skip", "malformed"):
+        if traced_op and res not in ("skip", "malformed"):
             before = n_before
             try:
                 discover()
@@ -1614,8 +1802,10 @@ def _lines(s):
     if s["res"] == "malformed":
         return ["bad-op"]
     out = []
-    if s["op"][0] in TRACED:
+    if _traced(s):
         return [f"trace {_fmt_conns(s['snap'])}"]
+    if s["op"][0] == "call":
+        return [f"{_call_class(s)} - {_fmt_conns(s['snap'])}"]
     if s["op"][0] == "replace":
         out.append(f"{_replace_class(s)} - {_fmt_conns(s['snap'])}")
     elif s["op"][0] != "query":
@@ -1623,6 +1813,17 @@ def _lines(s):
     if s.get("flags") is not None:
         out.append(_fmt_flags(s["flags"]))
     return out
+
+
+def _traced(s):
+    op = s["op"]
+    return op[0] in TRACED or (op[0] == "call" and len(op) > 1 and op[1] in ("run", "call"))
+
+
+def _call_class(s):
+    """ok / typeErr / connErr as the connection model names them; anything else refused the call before it applied
+    a keyword (unknown keyword, too many positional values, a locked input)"""
+    return s["res"] if s["res"] in ("ok", "typeErr", "connErr") else "refused"
 
 
 def _replace_class(s):
@@ -1642,8 +1843,11 @@ def nontrivial(case, r):
 
 
 def _is_modelled(st):
-    if st["op"][0] == "replace" or st["op"][0] in TRACED:
+    if st["op"][0] == "replace" or _traced(st):
         return st["res"] not in ("skip", "malformed")
+    if st["op"][0] == "call":
+        # a locked input (owner running) refuses VALUES with a RuntimeError the connection model knows nothing about
+        return st["res"] not in ("skip", "malformed") and not (st["res"].startswith("exc:") and st.get("call", {}).get("known"))
     return st["modelled"] and st["res"] != "skip" and not st["res"].startswith("exc:")
 
 
@@ -1683,7 +1887,7 @@ def model_input(case, impl=None):
             # nothing happened (skipped), or an injected fault left the alphabet: take the observed state
             lines += _setconns(st["snap"])
             continue
-        if op[0] in TRACED:
+        if _traced(st):
             # outside the modelled alphabet: replay the primitive calls it was seen to make, compare the outcome
             for c, k, o in st.get("new_chans", []):
                 lines.append(f"chan {c} {k} {o}")
@@ -1736,6 +1940,10 @@ def model_input(case, impl=None):
         elif op[0] == "copyio":
             hard = op[1] in ("hard", "pub")
             lines.append(f"copyio {'hard' if hard else 'soft'} " + " ".join(_copyio_pairs(lay, op[2], op[3])))
+        elif op[0] == "call":
+            c = st["call"]
+            toks = [f"{a}:{t}" if isinstance(t, int) else t for a, t in c["items"]]
+            lines.append(f"call {1 if c['known'] else 0} " + " ".join(toks))
         elif op[0] == "remove":
             lines.append("dropchans " + " ".join(map(str, lay.own(op[1]))))
         elif op[0] == "replace":
@@ -1902,6 +2110,22 @@ def oracle(case, r):
         if op[0] == "replace" and refused and st.get("cand_clean") and any(snap[c] for c in lay.own(op[2])):
             if not any(f["clause"] == "refused-copy-changed-state" for f in fails):
                 fails.append(_f("refused-replacement-left-connected", k, op, res, exc=st.get("exc")))
+        if op[0] == "call" and "call" in st and res not in ("skip",):
+            named = {frozenset((a, t)) for a, t in st["call"]["items"] if isinstance(t, int)}
+            variant = op[1]
+            if destroyed and (variant == "set" or refused) and not st.get("merged"):
+                fails.append(_f("call-destroyed-a-connection", k, op,
+                                f"{res}: {sorted(map(sorted, destroyed))} existed before the call and are gone",
+                                refused=refused, variant=variant))
+            if variant == "set":
+                if created - named:
+                    fails.append(_f("call-created-unnamed-connection", k, op, f"{sorted(map(sorted, created - named))}"))
+                for a, (l0, l1) in enumerate(zip(prev, snap)):
+                    if l1[len(l1) - len(l0):] != l0 and not destroyed:
+                        fails.append(_f("call-reordered", k, op, f"channel {a}: {l0} -> {l1}"))
+                        break
+                if refused and not st["call"]["known"] and snap != prev:
+                    fails.append(_f("refused-call-changed-state", k, op, res))
         if op[0] == "construct" and refused and snap != prev:
             fails.append(_f("refused-construct-changed-state", k, op,
                             f"{res}: the constructor raised, yet destroyed {sorted(map(sorted, destroyed))}, left behind "
